@@ -49,8 +49,8 @@ ASSUMPTIONS = [
     "new-process recovery is executed once per distinct on-disk state (memoised by content hash)",
 ]
 BOUNDS = {
-    "quick": {"history_depth": "fixpoint", "faults": "1 fault at every call x every mode", "constructors": "2 threads: preemption bound 3; 3 threads: bound 1"},
-    "thorough": {"history_depth": "fixpoint", "faults": "1 fault at every call x every mode; 2 faults (die after a failed call)", "constructors": "2 threads: preemption bound 5; 3 threads: bound 2"},
+    "quick": {"history_depth": "6 (4 with byte-code caching)", "faults": "1 fault at every call x every mode", "constructors": "2 threads: preemption bound 3; 3 threads: bound 1"},
+    "thorough": {"history_depth": "10 (7 with byte-code caching)", "faults": "1 fault at every call x every mode; 2 faults (die after a failed call)", "constructors": "2 threads: preemption bound 5; 3 threads: bound 2"},
 }
 READY = True
 PIN_CPUS = True
@@ -620,7 +620,8 @@ def expand(cfg, hist):
 def h_configs(tier):
     cfgs = [{"pyc": False, "writer": False}, {"pyc": False, "writer": True}, {"pyc": True, "writer": False}]
     for c in cfgs:
-        c["max_depth"] = 6 if tier == "quick" else 10
+        # byte-code caching multiplies the state space (the cached file is part of the state)
+        c["max_depth"] = (4 if c["pyc"] else 6) if tier == "quick" else (7 if c["pyc"] else 10)
     return cfgs
 
 
